@@ -47,7 +47,8 @@ class Shared:
         if i is None:
             i = len(self.ids)
             self.ids[k] = i
-            self.defs.append('Definition L%d := %s.' % (i, text))
+            ty = {'cs': 'list comment', 'vs': 'list violation'}[kind]
+            self.defs.append('Definition L%d : %s := %s.' % (i, ty, text))
         return 'L%d' % i
 
 
@@ -72,6 +73,11 @@ def run(ctx):
     cases = [json.loads(l) for l in open(out)]
     by = collections.defaultdict(list)
     for c in cases:
+        for k in ('after', 'raw_after', 'before', 'raw', 'raw_before', 'comments_after', 'obs', 'entries', 'names'):
+            if k in c and c[k] is None:     # Go nil slices
+                c[k] = []
+        if c['kind'] == 'e2e' and c.get('comments') is None:
+            c['comments'] = []
         by[c['kind']].append(c)
 
     I, S = Interner(), Shared()
@@ -81,11 +87,12 @@ def run(ctx):
     dirs = by['dir']
     dir_errors = [c for c in dirs if c.get('error')]
     dirs = [c for c in dirs if not c.get('error')]
-    body.append('Definition dir_cases : list dir_case := ' + clist(
-        '{| dc_comments := %s; dc_obs := %s |}' % (
+    def fmt_dir(c):
+        return '{| dc_comments := %s; dc_obs := %s |}' % (
             clist(c_comment(I, x) for x in c['comments']),
             'ObsConflict' if c.get('conflict') else 'ObsMap ' + c_entries(I, c['entries'] or []))
-        for c in dirs) + '.')
+
+    body.append('Definition dir_cases : list dir_case := ' + clist(fmt_dir(c) for c in dirs) + '.')
     igns = by['ign']
     body.append('Definition ign_cases : list ign_case := ' + clist(
         '{| ic_comments := %s; ic_v := %s; ic_obs := %s |}' % (
@@ -107,17 +114,18 @@ def run(ctx):
     # ---- end to end, per-file rules
     e2e_all = by['e2e']
     e2e = [c for c in e2e_all if not c.get('skip')]
-    body.append('Definition e2e_cases : list e2e_case := ' + clist(
-        '{| e_comments := %s; e_raw := %s; e_before := %s; e_place := %s; e_row := %d; e_dir := %s; '
-        'e_comments_after := %s; e_raw_after := %s; e_after := %s |}' % (
-            S.ref('cs', clist(c_comment(I, x) for x in c['comments'] or [])),
-            S.ref('vs', clist(c_viol(I, v) for v in c['raw'] or [])),
-            S.ref('vs', clist(c_viol(I, v) for v in c['before'] or [])),
-            PLACE[c['place']], c['target']['row'], I.s(c['dir']),
-            clist(c_comment(I, x) for x in c['comments_after'] or []),
-            S.ref('vs', clist(c_viol(I, v) for v in c['raw_after'] or [])),
-            clist(c_viol(I, v) for v in c['after'] or []))
-        for c in e2e) + '.')
+    def fmt_e2e(c):
+        return ('{| e_comments := %s; e_raw := %s; e_before := %s; e_place := %s; e_row := %d; e_dir := %s; '
+                'e_comments_after := %s; e_raw_after := %s; e_after := %s |}' % (
+                    S.ref('cs', clist(c_comment(I, x) for x in c['comments'] or [])),
+                    S.ref('vs', clist(c_viol(I, v) for v in c['raw'] or [])),
+                    S.ref('vs', clist(c_viol(I, v) for v in c['before'] or [])),
+                    PLACE[c['place']], c['target']['row'], I.s(c['dir']),
+                    clist(c_comment(I, x) for x in c['comments_after'] or []),
+                    S.ref('vs', clist(c_viol(I, v) for v in c['raw_after'] or [])),
+                    '(' + clist(c_viol(I, v) for v in c['after'] or []) + ' : list violation)'))
+
+    body.append('Definition e2e_cases : list e2e_case := ' + clist(fmt_e2e(c) for c in e2e) + '.')
 
     # ---- aggregate rules
     agg_all = by['agg']
@@ -149,7 +157,21 @@ def run(ctx):
     for name, fn, lst in checks:
         body.append('Definition %s := Eval vm_compute in failing %s 0 %s.' % (name, fn, lst))
     body.append('Definition R_nsuppr := Eval vm_compute in length (filter (fun c => ic_obs c) ign_cases).')
-    body.append(' '.join('Print %s.' % n for n, _, _ in checks) + ' Print R_nsuppr.')
+    # self-test of the glue: a perturbed observation must be flagged (not a verdict about /repo)
+    selftest = []
+    pd = next((c for c in dirs if c.get('entries')), None)
+    if pd is not None:
+        q = json.loads(json.dumps(pd))
+        q['entries'][0]['key'] = str(int(q['entries'][0]['key']) + 1)
+        body.append('Definition T_dir := Eval vm_compute in failing dir_agrees 0 [%s].' % fmt_dir(q))
+        selftest.append('T_dir')
+    pe = next((c for c in e2e if c['after'] and c['before']), None)
+    if pe is not None:
+        q = json.loads(json.dumps(pe))
+        q['after'] = q['after'][1:]
+        body.append('Definition T_e2e := Eval vm_compute in failing after_agrees 0 [%s].' % fmt_e2e(q))
+        selftest.append('T_e2e')
+    body.append(' '.join('Print %s.' % n for n, _, _ in checks) + ' Print R_nsuppr. ' + ' '.join('Print %s.' % t for t in selftest))
     v = ['From Regal Require Import Check.C06Check.', 'Open Scope N_scope.'] + I.defs + S.defs + body
     rc, cout = vlib.coq_eval(ctx, 'Cases_C06', '\n'.join(v))
     if rc != 0:
@@ -157,6 +179,8 @@ def run(ctx):
     R = {n: vlib.parse_nat_list(cout, n) or [] for n, _, _ in checks}
     m = re.search(r'R_nsuppr = (\d+)', cout)
     n_suppressed = int(m.group(1)) if m else 0
+
+    selftest_blind = [t for t in selftest if vlib.parse_nat_list(cout, t) != [0]]
 
     # ---- verdicts -------------------------------------------------------------------------
     # (1) the predicate of the property, evaluated by the harness on the implementation's own reports
@@ -213,6 +237,9 @@ def run(ctx):
                 vlib.violation(ctx, {'kind': 'correspondence', 'relation': 'Check.C06Check.' + what, 'case': small,
                                      'n_mismatches': len(R[name])}, no_input=True)
                 break
+    if selftest_blind:
+        vlib.violation(ctx, {'kind': 'glue-self-test', 'what': 'a perturbed observation was not flagged by ' + ', '.join(selftest_blind)},
+                       no_input=True)
     for c in (dir_errors + key_errors)[:1]:
         vlib.violation(ctx, {'kind': 'helper-error', 'case': c}, no_input=True)
     for c in agg_errs[:1]:
@@ -247,6 +274,7 @@ def run(ctx):
         'agg_cases': len(agg), 'skipped': dict(skipped),
         'targets_by_rule': dict(titles), 'agg_targets_by_rule': dict(agg_titles), 'histogram': dict(hist),
         'mismatches': {k: len(vv) for k, vv in R.items() if k != 'R_hshift'},
+        'glue_self_tests': selftest, 'glue_self_tests_blind': selftest_blind,
         'predicate_failures': len(pred_bad), 'two_phase_vs_one_shot_failures': len(tp_bad),
         'samples': [
             {k: dirs[len(dirs) // 2][k] for k in ('comments', 'entries') if k in dirs[len(dirs) // 2]} if dirs else None,
